@@ -9,6 +9,9 @@
 //	     memDec / lazyDec = o:<StartPos>:<LargeSize>:<len(Data)>:<lazyDataSize>:<Size()>:<reader pos after decode> | e | E(of)
 //	R  id start size oracle  memRead lazyRead memCopy lazyCopy       (o:<hex> | e | p)
 //	H  id  lazyEncode  memEncode                                      (o:<hex> | e | p)
+//	T  id sizes uniform chunkOffsets                                  (sample table view of the current file)
+//	S  id valid a b workLen oracle chunks memCopySamples lazyCopySamples   (chunks = GetContainingChunks output nr:start:n;...)
+//	W  id filehex zeof oracle tops memTop lazyTop                     (DecodeFile top-level view; tops = layout as built or -)
 package main
 
 import (
@@ -366,6 +369,7 @@ func corr(seed uint64, n, exh int) {
 		emitFile(mf, genOracle(rng), rng.Bool())
 	}
 	corrSamples(rng, n/2+1)
+	corrWalk(rng, n/2+1)
 }
 
 // ---------------------------------------------------------------- search: the property itself
